@@ -18,7 +18,7 @@ from .nets import CTYPES, attrs, container, eid_literal, eid_ref, members_of, no
 # strategies
 
 
-def op_strategy(kind, none_p=True, bulk_empty=True, heavy=True):
+def op_strategy(kind, none_p=True, bulk_empty=True, heavy=True, only=None):
     """strategy for one JSON op.  none_p: None may appear among members / as IDs;
     bulk_empty: empty member lists may appear in bulk adders (docs contradict the code there)."""
     n = node_of(kind)
@@ -52,43 +52,44 @@ def op_strategy(kind, none_p=True, bulk_empty=True, heavy=True):
         st.tuples(st.just("dod"), st.lists(st.tuples(key, a).map(list), max_size=3), st.none()),
     )
     ops = [
-        (3, st.tuples(st.just("add_node"), n_or_none, a).map(list)),
-        (2, st.tuples(st.just("add_nodes_from"), st.lists(st.one_of(n, st.tuples(n, a).map(list)), max_size=3), a).map(list)),
-        (4, st.tuples(st.just("remove_node"), n, b, b).map(list)),
-        (2, st.tuples(st.just("remove_nodes_from"), st.lists(n, max_size=3), b, b).map(list)),
-        (2, setattr_modes(n).map(lambda t: ["set_node_attributes"] + list(t))),
-        (7, st.tuples(st.just("add_edge"), mem, ct, st.none(), a).map(list)),
-        (5, st.tuples(st.just("add_edge"), mem, ct, e, a).map(list)),
-        (2, bulk(1)),
-        (2, bulk(2)),
-        (2, bulk(3)),
-        (2, bulk(4)),
-        (2, bulk(5)),
-        (1, st.tuples(st.just("add_weighted_edges_from"), st.lists(st.tuples(members_of(kind, 1, 3, none_p), st.sampled_from([0.5, 2, 3.0])).map(list), max_size=2), st.sampled_from(["weight", "w"]), a.map(lambda d: {k: v for k, v in d.items() if k != "weight"})).map(list)),
-        (2, setattr_modes(e).map(lambda t: ["set_edge_attributes"] + list(t))),
-        (3, st.tuples(st.just("double_edge_swap"), n, n, e, e).map(list)),
-        (2, st.tuples(st.just("random_edge_shuffle"), e, e, st.integers(0, 10**6)).map(list)),
-        (1, st.tuples(st.just("random_edge_shuffle"), st.none(), st.none(), st.integers(0, 10**6)).map(list)),
-        (4, st.tuples(st.just("add_node_to_edge"), e_or_none, n_or_none).map(list)),
-        (3, st.tuples(st.just("remove_edge"), e).map(list)),
-        (2, st.tuples(st.just("remove_edges_from"), st.lists(e, max_size=3)).map(list)),
-        (4, st.tuples(st.just("remove_node_from_edge"), e, n, b).map(list)),
-        (1, st.tuples(st.just("update"), st.one_of(st.none(), st.lists(members_of(kind, 1, 3, False), max_size=2)), st.one_of(st.none(), st.lists(n, max_size=2))).map(list)),
-        (1, st.tuples(st.just("set_net_attr"), st.sampled_from(["name", "tag"]), nets.attr_value).map(list)),
-        (3, st.tuples(st.just("merge_duplicate_edges"), st.sampled_from(["first", "tuple", "new"]), st.sampled_from(["first", "union", "intersection"]), st.sampled_from([None, "mult"])).map(list)),
+        (3, "add_node", st.tuples(st.just("add_node"), n_or_none, a).map(list)),
+        (2, "add_nodes_from", st.tuples(st.just("add_nodes_from"), st.lists(st.one_of(n, st.tuples(n, a).map(list)), max_size=3), a).map(list)),
+        (4, "remove_node", st.tuples(st.just("remove_node"), n, b, b).map(list)),
+        (2, "remove_nodes_from", st.tuples(st.just("remove_nodes_from"), st.lists(n, max_size=3), b, b).map(list)),
+        (2, "set_node_attributes", setattr_modes(n).map(lambda t: ["set_node_attributes"] + list(t))),
+        (7, "add_edge", st.tuples(st.just("add_edge"), mem, ct, st.none(), a).map(list)),
+        (5, "add_edge", st.tuples(st.just("add_edge"), mem, ct, e, a).map(list)),
+        (2, "add_edges_from", bulk(1)),
+        (2, "add_edges_from", bulk(2)),
+        (2, "add_edges_from", bulk(3)),
+        (2, "add_edges_from", bulk(4)),
+        (2, "add_edges_from", bulk(5)),
+        (1, "add_weighted_edges_from", st.tuples(st.just("add_weighted_edges_from"), st.lists(st.tuples(members_of(kind, 1, 3, none_p), st.sampled_from([0.5, 2, 3.0])).map(list), max_size=2), st.sampled_from(["weight", "w"]), a.map(lambda d: {k: v for k, v in d.items() if k != "weight"})).map(list)),
+        (2, "set_edge_attributes", setattr_modes(e).map(lambda t: ["set_edge_attributes"] + list(t))),
+        (3, "double_edge_swap", st.tuples(st.just("double_edge_swap"), n, n, e, e).map(list)),
+        (2, "random_edge_shuffle", st.tuples(st.just("random_edge_shuffle"), e, e, st.integers(0, 10**6)).map(list)),
+        (1, "random_edge_shuffle", st.tuples(st.just("random_edge_shuffle"), st.none(), st.none(), st.integers(0, 10**6)).map(list)),
+        (4, "add_node_to_edge", st.tuples(st.just("add_node_to_edge"), e_or_none, n_or_none).map(list)),
+        (3, "remove_edge", st.tuples(st.just("remove_edge"), e).map(list)),
+        (2, "remove_edges_from", st.tuples(st.just("remove_edges_from"), st.lists(e, max_size=3)).map(list)),
+        (4, "remove_node_from_edge", st.tuples(st.just("remove_node_from_edge"), e, n, b).map(list)),
+        (1, "update", st.tuples(st.just("update"), st.one_of(st.none(), st.lists(members_of(kind, 1, 3, False), max_size=2)), st.one_of(st.none(), st.lists(n, max_size=2))).map(list)),
+        (1, "set_net_attr", st.tuples(st.just("set_net_attr"), st.sampled_from(["name", "tag"]), nets.attr_value).map(list)),
+        (3, "merge_duplicate_edges", st.tuples(st.just("merge_duplicate_edges"), st.sampled_from(["first", "tuple", "new"]), st.sampled_from(["first", "union", "intersection"]), st.sampled_from([None, "mult"])).map(list)),
     ]
     if heavy:
         ops += [
-            (0.4, st.tuples(st.just("clear"), b).map(list)),
-            (0.4, st.just(["clear_edges"])),
-            (1, st.tuples(st.just("cleanup"), b, b, b, b, b).map(list)),
-            (0.7, st.tuples(st.just("convert_labels_to_integers"), st.sampled_from(["label", "old"])).map(list)),
-            (0.7, st.just(["largest_connected_hypergraph"])),
+            (0.4, "clear", st.tuples(st.just("clear"), b).map(list)),
+            (0.4, "clear_edges", st.just(["clear_edges"])),
+            (1, "cleanup", st.tuples(st.just("cleanup"), b, b, b, b, b).map(list)),
+            (0.7, "convert_labels_to_integers", st.tuples(st.just("convert_labels_to_integers"), st.sampled_from(["label", "old"])).map(list)),
+            (0.7, "largest_connected_hypergraph", st.just(["largest_connected_hypergraph"])),
         ]
     # weights -> repeat entries (st.one_of has no weights); 0.x weights get one slot among 10x others
     pool = []
-    for w, s in ops:
-        pool += [s] * max(1, int(round(w * 2)))
+    for w, nm, s in ops:
+        if only is None or nm in only:
+            pool += [s] * max(1, int(round(w * 2)))
     return st.one_of(pool)
 
 
@@ -128,10 +129,10 @@ def make_init(init):
 
 
 @st.composite
-def history(draw, max_ops=30, none_p=True, bulk_empty=True, heavy=True, kind=None, with_init=True):
+def history(draw, max_ops=30, none_p=True, bulk_empty=True, heavy=True, kind=None, with_init=True, only=None):
     kind = kind or draw(nets.kinds)
     init = draw(init_strategy(kind)) if with_init else ["empty"]
-    ops = draw(nets.op_lists(op_strategy(kind, none_p, bulk_empty, heavy), max_ops))
+    ops = draw(nets.op_lists(op_strategy(kind, none_p, bulk_empty, heavy, only), max_ops))
     return {"kind": kind, "init": init, "ops": ops}
 
 
